@@ -107,8 +107,16 @@ func (ck *checker) classifySpelling(root *node, so outcome, passes func(*node) b
 			if !literal {
 				kind = "negative-index-nonliteral" // the number is only known when the template is evaluated
 			}
-			return classification{"index-shift|" + kind + "|call:" + strings.ToLower(n.fn),
-				"a negative word number counts from the end (legacy -1 = last word, as word(s, -1) in the new syntax), but the migration decrements it like a 1-based index: " + so.source + " → " + so.migrated + "; " + so.detail, w}, true
+			what := "a negative word number counts from the end in the legacy syntax (WORD(s, -1) is the last word, WORD_SLICE(s, -2) the last two, WORD_SLICE(s, 2, -1) leaves the last one out), but the migrated call does not denote the same words"
+			switch {
+			case !literal:
+				what += " (a number that is only known at evaluation time is always migrated to `n - 1`, which is right only for n > 0): "
+			case n.fn == "WORD_SLICE":
+				what += " (word_slice() in the new syntax rejects a negative start and reads any end <= 0 as the end of the text): "
+			default:
+				what += " (the literal is decremented like a 1-based index): "
+			}
+			return classification{"index-shift|" + kind + "|call:" + strings.ToLower(n.fn), what + so.source + " → " + so.migrated + "; " + so.detail, w}, true
 		}
 	}
 
